@@ -48,7 +48,9 @@ def make_config(prop, rng, tier):
         })
     elif prop == "C06":
         cfg.update({
-            "cls": rng.choice(["monoidal", "monoidal", "monoidal", "rigid_plain", "tensor"]),
+            # (no tensor clothing here: tensor.Box.__eq__ raises ValueError for arrays of different
+            # shape under numpy 2, so any normaliser that compares two steps directly would "fail")
+            "cls": rng.choice(["monoidal", "monoidal", "monoidal", "rigid_plain", "circuit"]),
             "max_steps": rng.choice([20, 35, 50]),
             "nboxes": rng.choice([0, 1, 2, 3, 4, 4, 5, 5, 6, 6, 7, 8]),
             "maxw": rng.choice([3, 4, 5, 6]), "atoms": rng.randint(1, 2),
